@@ -482,6 +482,11 @@ Definition log_get_by_key (st : lstate) (k : bytes) : res (lstate * msg) :=
   if negb (ckeys c) then Err ENoIndex
   else get_by_key_back c st k (length (segs st)) (zlen (segs st) - 1).
 
+(* log.OffsetByKey: GetByKey, then the offset of what it found *)
+Definition log_offset_by_key (st : lstate) (k : bytes) : res (lstate * Z) :=
+  do r <- log_get_by_key st k;
+  Ok (fst r, moff (snd r)).
+
 (* log.ConsumeByKey *)
 Fixpoint consume_by_key_fwd (c : cfg) (st : lstate) (k : bytes) (n : nat) (i off max : Z)
   : res (lstate * (Z * list msg)) :=
@@ -544,6 +549,11 @@ Definition log_get_by_time (st : lstate) (ts : Z) : res (lstate * msg) :=
       do m <- reader_get s items (is_last st i) OffsetOldest;
       Ok (st2, m)
     end.
+
+(* log.OffsetByTime: GetByTime, then the offset and the time of what it found *)
+Definition log_offset_by_time (st : lstate) (ts : Z) : res (lstate * (Z * Z)) :=
+  do r <- log_get_by_time st ts;
+  Ok (fst r, (moff (snd r), mtime (snd r))).
 
 (* NextOffset / Sync *)
 Definition head_seg (st : lstate) : res seg :=
